@@ -11,6 +11,7 @@ mod layout;
 mod project;
 mod render;
 mod report;
+mod total;
 mod walk;
 
 use common::*;
@@ -144,6 +145,12 @@ fn main() {
             }
             w.finish();
             t.finish();
+        }
+        "total-run" => {
+            // total-run <build tag> <corpus|-> <trace> <behaviour files...>
+            let mut w = NdjsonWriter::new(&a(4));
+            total::run(&a(2), &a(3), &args[5..].to_vec(), &mut w, &mut out);
+            w.finish();
         }
         _ => usage(),
     }
